@@ -141,7 +141,8 @@ type task struct {
 	prev    int32 // live list
 	next    int32
 	gateCh  chan struct{}
-	flag    int32
+	sig     uint32 // race gates: number of times the gate was opened (written only by the token holder)
+	ack     uint32 // race gates: number of openings consumed (written only by the task itself)
 	fn      func()
 }
 
@@ -454,7 +455,11 @@ func Choose(n int) int {
 //go:norace
 func (s *Sim) open(t *task) {
 	if s.cfg.RaceGates {
-		t.flag = 1
+		// Two single-writer counters instead of one flag: the passive side of
+		// a rendezvous can be opened a second time (scheduled) before it has
+		// consumed the first opening; a binary flag would lose one.
+		t.sig++
+		futexWake(&t.sig)
 	} else {
 		t.gateCh <- struct{}{}
 	}
@@ -463,22 +468,25 @@ func (s *Sim) open(t *task) {
 //go:norace
 func (s *Sim) park(t *task) {
 	if s.cfg.RaceGates {
+		// Spin briefly, then block in a raw futex wait on the gate word. The
+		// race detector sees neither (no atomics, no channel, no annotated
+		// syscall wrapper), so the hand-over creates no happens-before edge;
+		// the parked goroutine costs an OS thread but no CPU.
 		n := 0
-		for t.flag == 0 {
+		for t.sig == t.ack {
 			n++
-			if n < 50 {
+			if n < 20 {
 				runtime.Gosched()
 			} else {
-				sleepShort()
+				futexWait(&t.sig, t.ack)
 			}
 		}
-		t.flag = 0
+		t.ack++
 	} else {
 		<-t.gateCh
 	}
 }
 
-func sleepShort() { time.Sleep(20 * time.Microsecond) }
 
 // ---------------------------------------------------------------------------
 // live list
@@ -1003,6 +1011,18 @@ func (s *Sim) result() Result {
 		r.Probes[s.pnames[i]] = s.probes[i]
 	}
 	return r
+}
+
+// ProcOutputAfterRun returns what process p of the last run wrote to its
+// standard streams; to be called after Run returned.
+//
+//go:norace
+func ProcOutputAfterRun(p Proc) (stdout, stderr []byte) {
+	s := simPool
+	if s == nil || int32(p) >= s.nprocs {
+		return nil, nil
+	}
+	return s.procs[p].stdout, s.procs[p].stderr
 }
 
 var faultNames = [8]string{"crash", "crash_write", "torn", "eio", "enospc", "clock", "damage", "trim"}
